@@ -16,10 +16,14 @@ import (
 	"crypto/sha256"
 	"fmt"
 	"math/big"
+	"os"
+	"os/signal"
 	"regexp"
 	"sort"
 	"strconv"
 	"strings"
+	"sync/atomic"
+	"syscall"
 	"testing"
 	"time"
 
@@ -29,13 +33,25 @@ import (
 	"github.com/lianxiangcloud/linkchain/types"
 	"pgregory.net/rapid"
 
+	"verifharness/consim"
 	"verifharness/vstat"
 )
 
 const P = "C03"
 
+var sigterms int32
+
 func TestMain(m *testing.M) {
 	log.Root().SetHandler(log.DiscardHandler())
+	consim.Init()
+	// finalizeCommit answers an ApplyBlock error with SIGTERM to the own process: survive it and count it
+	ch := make(chan os.Signal, 16)
+	signal.Notify(ch, syscall.SIGTERM)
+	go func() {
+		for range ch {
+			atomic.AddInt32(&sigterms, 1)
+		}
+	}()
 	vstat.Main(m)
 }
 
